@@ -464,9 +464,9 @@ func (fn *fileNode) truncate(size int64) {
 
 // symlinkNode
 
-// delete removes all information from the node.
+// delete does nothing for a symbolic link : a path search that has already reached
+// the node must still find its target.
 func (sn *symlinkNode) delete() {
-	sn.link = ""
 }
 
 // fillStatFrom returns a MemInfo (implementation of fs.FileInfo) from a symlinkNode named name.
